@@ -148,7 +148,7 @@ let () =
                  | None -> stat "c02b_unresolved" 1)
               | [ "EVAL"; a ] ->
                 (match edge_of a, split_ws p.pres with
-                 | Some ea, [ "tt"; nn; hex ] when int_of_string nn = n ->
+                 | Some ea, ("tt" :: nn :: hex :: _) when int_of_string nn = n ->
                    stat "c02b_model_eval" 1;
                    let tab = Z.of_string_base 16 hex in
                    (try
